@@ -14,7 +14,10 @@ pub fn run(ctx: &Ctx, st: &mut Local) {
         "C09" => crate::props_misc::run_c09(ctx, st),
         "C10" => crate::props_misc::run_c10(ctx, st),
         "C11" => crate::props_file::run_c11(ctx, st),
-        "C12" => crate::props_file::run_c12(ctx, st),
+        "C12" => {
+            crate::props_file::run_c12(ctx, st);
+            crate::props_file::run_c12_hist(ctx, st);
+        }
         "C13" => crate::props_file::run_c13(ctx, st),
         "C14" => crate::props_c14::run_c14(ctx, st),
         p => {
